@@ -439,10 +439,11 @@ func one(c *h.Case, j job, ents []entry, measure bool) {
 				c.Violation("over-allocation:"+sigDest(j), fmt.Sprintf("%s allocated %d bytes for an input of %d bytes (budget %d)\ninput=%s", j.describe(), da, len(j.data), allocBase+len(j.data)*allocPerByte, h.Hex(clipb(j.data, 400))), rep)
 			}
 		}
-		if dc > cpuBudget {
+		budget := cpuBudget + time.Duration(len(j.data))*2*time.Microsecond // linear in the input for the long hostile literals
+		if dc > budget {
 			c1 := threadCPU()
 			h.Try(func() { runJob(jj, ents) })
-			if threadCPU()-c1 > cpuBudget {
+			if threadCPU()-c1 > budget {
 				c.Violation("cpu-time:"+sigDest(j), fmt.Sprintf("%s used %v of CPU time for an input of %d bytes (budget %v)\ninput=%s", j.describe(), dc, len(j.data), cpuBudget, h.Hex(clipb(j.data, 400))), rep)
 			}
 		}
@@ -457,7 +458,7 @@ func TestCheck(t *testing.T) {
 	svc2.AddInstanceMethods(svcObj{})
 	ents := entries()
 	dests := destTypes()
-	r.Meta("rule", "valid streams (C01 universe sample, hand-written streams using every tag, RPC requests and responses) are mutated: every truncation; every single-byte substitution from a 48-byte alphabet of tags/digits/delimiters/boundary bytes (exhaustive on streams <= 48 bytes in quick, <= 96 in thorough, sampled on longer ones); single insertions and deletions; grammar-aware replacement of every count/length/reference/class index by 22 hostile values; container tag swaps; seeded random byte strings. Each mutant is decoded into its own type, interface{} and seeded other destinations through Unmarshal, Decoder.Read (two values), reader mode, Service.Handle (9 published signatures, with and without missing-method handler) and ClientCodec.Decode (6 return-type sets). Monitors: recover (panic), child death (fatal error / OOM under ulimit -v), per-case watchdog (hang), heap bytes allocated per decode <= 1 MiB + 4096 B per input byte, thread CPU time per decode <= 250 ms. distinct_nontrivial = distinct mutated inputs (hashed) executed")
+	r.Meta("rule", "valid streams (C01 universe sample, hand-written streams using every tag, RPC requests and responses) are mutated: every truncation; every single-byte substitution from a 48-byte alphabet of tags/digits/delimiters/boundary bytes (exhaustive on streams <= 48 bytes in quick, <= 96 in thorough, sampled on longer ones); single insertions and deletions; grammar-aware replacement of every count/length/reference/class index by 22 hostile values; container tag swaps; seeded random byte strings. Each mutant is decoded into its own type, interface{} and seeded other destinations through Unmarshal, Decoder.Read (two values), reader mode, Service.Handle (9 published signatures, with and without missing-method handler) and ClientCodec.Decode (6 return-type sets). Monitors: recover (panic), child death (fatal error / OOM under ulimit -v), per-case watchdog (hang), heap bytes allocated per decode <= 1 MiB + 4096 B per input byte, thread CPU time per decode <= 250 ms + 2 us per input byte. Hand-written amplification literals (exponents of 5..20 digits in i/l/d tokens and in strings, 60 000-digit numbers, lists and maps nested 1 000 / 10 000 / 100 000 deep, closed and unclosed, 1 000 references to a 50 KB string or byte string, a 200-field class instantiated 300 times) are decoded into every destination under the same monitors. distinct_nontrivial = distinct mutated inputs (hashed) executed")
 	r.Meta("assumptions", []string{
 		"malformed input that is accepted without error is counted (stats.accepted), not reported: C04 is about crashes, hangs and over-allocation",
 		"inputs are at most 4 KiB (+ mutation); the allocation budget is linear in the input length",
@@ -477,6 +478,28 @@ func TestCheck(t *testing.T) {
 	for i, q := range resps {
 		i, q := i, q
 		r.Case(fmt.Sprintf("client/%d", i), func(c *h.Case) { rpcCase(c, q, "client", ents, maxExh) })
+	}
+	for i, hl := range hostileLiterals() {
+		i, hl := i, hl
+		r.Case(fmt.Sprintf("hostile/%d/%s", i, hl.label), func(c *h.Case) {
+			ds := dests
+			if len(hl.data) > 1<<20 {
+				ds = []reflect.Type{gen.TIface, reflect.TypeOf([]interface{}(nil)), reflect.TypeOf(map[string]interface{}(nil)), reflect.TypeOf(&gentypes.Tree{})}
+			} else if len(hl.data) > 8192 {
+				// long inputs: the destinations that recurse or collect
+				ds = []reflect.Type{gen.TIface, reflect.TypeOf([]interface{}(nil)), reflect.TypeOf(map[interface{}]interface{}(nil)), reflect.TypeOf(map[string]interface{}(nil)), reflect.TypeOf(&gentypes.Tree{}), gen.TBigIntP, gen.TBigFloatP, gen.TBigRatP, gen.TString, gen.TBytes, reflect.TypeOf([][]byte(nil)), reflect.TypeOf([]string(nil))}
+			}
+			for _, d := range ds {
+				for e := range ents {
+					for _, simple := range []bool{false, true} {
+						one(c, job{data: hl.data, simple: simple, dest: d, entry: e, kind: "io"}, ents, false)
+						one(c, job{data: hl.data, simple: simple, dest: d, entry: e, kind: "io"}, ents, true)
+						c.R.Eval(1)
+					}
+				}
+			}
+			c.R.Distinct("hostile|" + hl.label)
+		})
 	}
 	nrand := r.Pick(200, 4000)
 	for i := 0; i < nrand; i++ {
@@ -617,3 +640,52 @@ func clipb(b []byte, n int) []byte {
 }
 
 var _ = bytes.Equal
+
+type hostile struct {
+	label string
+	data  []byte
+}
+
+// hostileLiterals are hand-written amplification attempts: short inputs that ask for much
+// memory, time or stack.
+func hostileLiterals() []hostile {
+	rep := func(s string, n int) string { return string(bytes.Repeat([]byte(s), n)) }
+	var out []hostile
+	add := func(label, data string) { out = append(out, hostile{label, []byte(data)}) }
+	for _, e := range []string{"99999", "999999", "9999999", "99999999", "999999999", "99999999999999999999", "-999999999", "+999999999"} {
+		add("double-exponent-"+e, "d1e"+e+";")
+		add("double-exponent-neg-mantissa-"+e, "d-123.456e"+e+";")
+		add("long-with-exponent-"+e, "l1e"+e+";")
+		add("integer-with-exponent-"+e, "i1e"+e+";")
+		add("list-of-double-exponents-"+e, "a3{d1e"+e+";d2e"+e+";d3e"+e+";}")
+		add("map-key-double-exponent-"+e, "m1{d1e"+e+";t}")
+		lit := "1e" + e
+		add("string-with-exponent-"+e, fmt.Sprintf("s%d\"%s\"", len(lit), lit))
+		lit = "1/1e" + e
+		add("string-ratio-with-exponent-"+e, fmt.Sprintf("s%d\"%s\"", len(lit), lit))
+	}
+	add("double-many-digits", "d0."+rep("0", 60000)+"1;")
+	add("double-many-integer-digits", "d"+rep("9", 60000)+";")
+	add("long-many-digits", "l"+rep("9", 60000)+";")
+	add("integer-many-digits", "i"+rep("9", 60000)+";")
+	for _, n := range []int{1000, 10000, 100000} {
+		add(fmt.Sprintf("nested-lists-%d", n), rep("a1{", n)+"n"+rep("}", n))
+		add(fmt.Sprintf("nested-lists-unclosed-%d", n), rep("a1{", n))
+		add(fmt.Sprintf("nested-maps-%d", n), rep("m1{n", n)+"n"+rep("}", n))
+		add(fmt.Sprintf("nested-map-keys-%d", n), rep("m1{", n)+"nn"+rep("n}", n))
+	}
+	for _, n := range []int{9000, 10001, 200000, 1500000} {
+		// around and far beyond any sensible depth: deep enough to exhaust a 1 GB stack without a limit
+		add(fmt.Sprintf("deep-lists-%d", n), rep("a1{", n)+"n"+rep("}", n))
+		add(fmt.Sprintf("deep-objects-%d", n), "c1\"A\"1{s1\"a\"}"+rep("o0{", n)+"n"+rep("}", n))
+		add(fmt.Sprintf("deep-registered-objects-%d", n), "c4\"Tree\"1{s2\"up\"}"+rep("o0{", n)+"n"+rep("}", n))
+		add(fmt.Sprintf("deep-maps-as-objects-%d", n), rep("m1{s2\"up\"", n)+"n"+rep("}", n))
+		add(fmt.Sprintf("deep-mixed-%d", n), rep("a1{m1{1", n/2)+"n"+rep("}}", n/2))
+	}
+	long := rep("x", 50000)
+	add("many-references-to-a-long-string", "a1001{s50000\""+long+"\""+rep("r1;", 1000)+"}")
+	add("many-references-to-long-bytes", "a1001{b50000\""+long+"\""+rep("r1;", 1000)+"}")
+	add("class-with-many-fields-referenced-often", "c1\"A\"200{"+rep("s1\"f\"", 200)+"}"+"a300{"+rep("o0{"+rep("n", 200)+"}", 300)+"}")
+	add("guid-and-time-garbage", "a4{g{"+rep("f", 36)+"}D99999999T999999.999999999ZT999999.999999999999ZD00000000Z}")
+	return out
+}
